@@ -54,6 +54,9 @@ C["C09"] = dict(
 C["C11"] = dict(
     text="10 scenarios on a real pair under VIRTUAL time with racy timers (an armed timer may fire as a costed alternative at any step): ReadBytes released by data in two messages, by a read deadline racing with the arrival, by a local Close, by the peer's close, by Session.Close, by the death of the peer process; Flush into a 1-element queue whose consumer stopped (plain, with a write deadline); AcceptStream released by Session.Close; fallback Flush racing with Session.Close; every schedule with <= 2 (quick) / <= 3 (thorough) deviations; oracles: every call returns (a call that does not return is a deadlock / horizon failure of the execution), ErrTimeout never before the virtual deadline, the right error class per releasing event, completion within the code's own time bound",
     note=NOTE_B + "; time is virtual: real-time bounds are not checked; a Stream.Close concurrent with a Flush of the same stream is outside C11 (see DESIGN.md section 9)", technique=TECH_B, design="DESIGN.md section 4 C11")
+C["C14"] = dict(
+    text="12 scenarios on a real pair (echo workload in synchronous and callback mode, OpenStream bursts, GetMetrics, a Flush waiting on a full queue of a stalled peer) racing with Session.Close (client, server, both, twice/concurrently) or with the death of the peer process (all its threads stop, its descriptors close) injected at ANY scheduling point; memfd and /dev/shm-file mappings; every schedule with <= 2/1 (quick) / <= 3/2 (thorough) deviations; oracles: no panic, no access to memory the code already unmapped (PROT_NONE + SetPanicOnFault), no deadlock or horizon, survivor closed, reads return within 20 virtual seconds, later calls fail, one close callback per stream, Close idempotent; after both ends closed and quiescence: buffer-manager table empty, queue mappings gone, no descriptor beyond the baseline, no /dev/shm file",
+    note=NOTE_B + "; peer death is emulated inside one OS process (threads stopped for good + descriptors closed), so kernel-side effects of a real SIGKILL other than the hang-up are not modelled; use-after-unmap by in-flight user goroutines (D9) is a recorded known finding", technique=TECH_B, design="DESIGN.md section 4 C14")
 NA = {}
 m = {
     "version": 1,
